@@ -25,6 +25,7 @@ let channels : (string * ((string * string) list -> string)) list = [
   ("sortkm", Chan_sort.run_km);
   ("xform", Chan_xform.run);
   ("pmf", Chan_pmf.run);
+  ("lab", Chan_lab.run);
 ]
 
 let () =
